@@ -66,6 +66,16 @@ CHECKS = {
         technique="enumeration of stall position x all 8 None/value combinations of the three timeouts in exact virtual time on a simulated network (plus Hypothesis-drawn values); oracle = equality with the earliest applicable bound + resource ledger",
         text="The peer goes silent after its j-th command (every j of several scripted sessions, incl. before login), never makes the data connection of a RETR/STOR/APPE/LIST/MLSD, stops reading a 300 KB download after i bytes (TCP back pressure modelled by simnet: the server's write buffer fills and drain() blocks), stops sending an upload after i bytes, or sends a command every idle_timeout - epsilon. Because the harness owns the clock the bounds are checked as equalities (20 ms tolerance): release exactly at last command + idle_timeout or blocked I/O start + socket_timeout, 425 exactly at 150 + wait_future_timeout and PWD works afterwards, nothing at all released within 1000 s when the relevant timeouts are None, never dropped while commands keep arriving; after each release the C12 ledger must be empty.",
         note="Trusted: simnet flow control model (high/low water marks, pause_reading). Ties between two timers are not judged. Mutants caught: read/write timeouts swapped in StreamIO, idle timeout applied to the data stream, wait_future_timeout doubled."),
+    "C17": dict(
+        category="exploration", design_ref="3/C17",
+        technique="differential testing on a simulated network: Hypothesis pairs/triples of scripted sessions x interleaving tapes x backend delays x optional cut of one session; oracle = each session's transcript and subtree equal its solo run",
+        text="2-3 scripted sessions (11 scripts covering all verbs, restarts, renames, relative paths after CWD, TYPE, re-login, ABOR, error replies) re-rooted to disjoint subtrees, as the same or as different users, are interleaved by generated per-segment latencies/segmentations and backend delays; optionally one of them is cut (peer vanishes) at a generated network event. Every surviving session's normalised transcript (codes, reply texts, transferred bytes, listings) and final subtree must equal those of the same script run alone.",
+        note="Normalisation masks port numbers and timestamps only. Mutants caught: restart offset, working directory shared between connections; one session's TYPE closing another's data connection."),
+    "C19": dict(
+        category="exploration", design_ref="3/C19",
+        technique="grammar-aware mutational fuzzing: Hypothesis mutations of valid listing lines / passive replies / raw bytes against the parser contracts, atheris (libFuzzer, coverage-guided) on the same oracles, a generated hostile fake server against the real client and generated hostile control input against the real server on a simulated network",
+        text="Parsers: contract checks (listing-line entry points return (PurePosixPath, dict) or raise ValueError; others return well-typed values or raise Exception; every call returns - SIGALRM/libFuzzer timeouts catch unbounded loops). Hostile server: generated reply behaviours (wrong code, mismatched continuation, garbage, empty line, early close, malformed 227/229/257, mutated listing payloads with dot entries) against 7 client calls; because the fake server always hangs up in the end, a client call that neither returns nor raises within 10^6 virtual seconds is a hang; LIST listings must report every non-dot line or raise; recursive listing over generated trees with '.'/'..' in every directory must issue exactly one listing per directory. Hostile client: generated control input (mutated arguments, undecodable bytes, >64 KiB lines, bare CR/LF, NUL, premature EOF) while a neighbour session runs; fresh sessions must still be served, the neighbour must see its solo transcript, the hostile session's resources must be released.",
+        note="Observation (not a violation): parse_pasv_response's regex is quadratic in the length of a '('-free line (64 KiB reply ~ 2.4 s). Mutants caught: IndexError not funnelled into ValueError; '.' entries not skipped (endless recursion)."),
     "C18": dict(
         category="exploration", design_ref="3/C18",
         technique="differential testing: Hypothesis command histories replayed on the three backends (reply class, bytes, tree after every command); generated backend-API op sequences on PathIO vs AsyncPathIO",
@@ -113,7 +123,7 @@ def main():
         ))
     m = dict(
         version=1,
-        setup_cmd="/venv/bin/python -c 'import hypothesis' 2>/dev/null || /venv/bin/pip install -q --no-index --find-links /opt/veriftools/wheels hypothesis",
+        setup_cmd="(/venv/bin/python -c 'import hypothesis' 2>/dev/null || /venv/bin/pip install -q --no-index --find-links /opt/veriftools/wheels hypothesis) && (test -d /verif/.deps/atheris || /venv/bin/pip install -q --no-index --find-links /opt/veriftools/wheels --target /verif/.deps atheris)",
         hooks=dict(guard="AIOFTP_VERIF", enable="no source hooks exist: checks import aioftp from /repo/src as it is (AIOFTP_VERIF=1 is exported by run_check.py but nothing in the repository reads it)",
                    baseline_off_cmd="cd /repo && /venv/bin/python -m pytest -ra -q -p no:cacheprovider --timeout=900 --continue-on-collection-errors",
                    source_commits=[], add_only=True),
